@@ -6,6 +6,7 @@ require (
 	github.com/ccbrown/api-fu v0.0.0
 	github.com/gorilla/websocket v1.4.2
 	github.com/json-iterator/go v1.1.12
+	github.com/sirupsen/logrus v1.4.2
 )
 
 require (
@@ -14,7 +15,6 @@ require (
 	github.com/modern-go/concurrent v0.0.0-20180306012644-bacd9c7ef1dd // indirect
 	github.com/modern-go/reflect2 v1.0.2 // indirect
 	github.com/pkg/errors v0.8.1 // indirect
-	github.com/sirupsen/logrus v1.4.2 // indirect
 	github.com/vmihailenco/msgpack v4.0.4+incompatible // indirect
 	golang.org/x/sys v0.0.0-20220412211240-33da011f77ad // indirect
 )
